@@ -176,6 +176,57 @@ func main() {
 		})
 	}
 
+	// 6. SyncStateDBWithAccount(ctx, acc): before the StateDB write there is an early return for addresses that
+	//    are not 20 bytes long (an address of another length has no EVM account to mirror)
+	syncOnlyEvm := false
+	if fd := kf["SyncStateDBWithAccount"]; fd != nil && fd.Body != nil {
+		sc := newScope(fd)
+		var write token.Pos
+		ast.Inspect(fd.Body, func(n ast.Node) bool {
+			if c, ok := n.(*ast.CallExpr); ok && (calleeName(c) == "SetBalanceWei" || calleeName(c) == "SetBalance" || calleeName(c) == "AddBalance") && write == token.NoPos {
+				write = c.Pos()
+			}
+			return true
+		})
+		for _, g := range guardsOf(fd.Body) {
+			if write != token.NoPos && g.pos > write {
+				continue
+			}
+			hasReturn := false
+			for _, st := range g.body {
+				if _, ok := st.(*ast.ReturnStmt); ok {
+					hasReturn = true
+				}
+			}
+			if !hasReturn || g.cond == nil {
+				continue
+			}
+			// the condition (possibly one disjunct of it) is len(acc…) != 20 / != AddressLength
+			var disj []ast.Expr
+			var split func(e ast.Expr)
+			split = func(e ast.Expr) {
+				if be, ok := sc.deref(e).(*ast.BinaryExpr); ok && be.Op == token.LOR {
+					split(be.X)
+					split(be.Y)
+					return
+				}
+				disj = append(disj, e)
+			}
+			split(g.cond)
+			for _, dj := range disj {
+				c := sc.comparison(dj)
+				if !c.ok || c.op != token.NEQ {
+					continue
+				}
+				isLen := func(x string) bool { return strings.HasPrefix(x, "len($p1") }
+				is20 := func(x string) bool { return x == "20" || strings.HasSuffix(x, "AddressLength") }
+				if (isLen(c.lhs) && is20(c.rhs)) || (isLen(c.rhs) && is20(c.lhs)) {
+					syncOnlyEvm = true
+				}
+			}
+		}
+	}
+
 	one := big.NewInt(1)
 	fmt.Println("Require Import Nib.C05.Facts.")
 	fmt.Println("From Coq Require Import String List ZArith. Import ListNotations. Open Scope string_scope.")
@@ -199,5 +250,6 @@ func main() {
 	fmt.Printf("  k_refund_to_sender := %s;\n", CoqBool(refundToSender && refundCallFrom))
 	fmt.Printf("  k_leftover_is_limit_minus_used := %s;\n", CoqBool(leftover))
 	fmt.Printf("  k_refund_price_is_effective_price := %s;\n", CoqBool(refundPrice))
+	fmt.Printf("  k_sync_only_evm_addresses := %s;\n", CoqBool(syncOnlyEvm))
 	fmt.Printf("  k_refund_cap_applied := %s |}.\n", CoqBool(capApplied))
 }
